@@ -438,6 +438,7 @@ class StepHarness:
         self.tab_class = self.part.class_of(9)
         self.stats = {'paths': 0, 'ref_outcomes': 0, 'queries': 0, 'covers': {}}
         self.entry = None
+        self.recursion_reported = False
         self.ctor_anomalies = []
         self._loc_cache = {}
         self.max_mismatches = 40
@@ -638,10 +639,20 @@ class StepHarness:
         ndec_before = len(st.aux.get('decisions', ()))
         st.aux['dec_base'] = ndec_before
         nxt = self.fn(self.L + '_', 'next')
+        ex.watch_fn = nxt.name
+        st.aux['rec_depth'] = 0
         for kind, s2, val in ex.call_fn(st, nxt, [Ref(0, 'lx')]):
             self.stats['paths'] += 1
             if len(out) >= self.max_mismatches:
                 return          # enough counterexamples for this definition; the rest is not explored
+            if s2.aux.get('rec_depth', 0) >= 1 and not self.recursion_reported:
+                # next() called itself: one stack frame per lexeme that is skipped inside the call, so the stack use of
+                # a single call grows with the input (confirmed natively with a long run of such lexemes)
+                self.recursion_reported = True
+                m_ = self.best_model(s2.pc)
+                if m_ is not None:
+                    out.append(Mismatch(['progress'], 'next() calls itself (recursion depth %d within one call on a short input): stack use grows with the number of lexemes skipped in one call' % (s2.aux['rec_depth'] + 1),
+                                        m_, {'trail': trail, 'decisions': tuple(s2.aux.get('decisions', ())), 'expected': 'an iterative next()'}))
             if ex.deadline is not None and time.process_time() > ex.deadline:
                 from mirse.exec import OverBudget
                 raise OverBudget('time budget for this definition exhausted')
@@ -944,7 +955,9 @@ class StepHarness:
                 mm(asp, 'after the call the lexer is in state %s / returns to state %s, the entry state of rule set %s is %s'
                    % (stt.v, ini.v, self.names[rs.rho], ent[0]))
         if not (done_v.conc() and bool(done_v.v) == rs.done):
-            mm({'eof'}, 'done flag is %s, reference: %s' % (done_v.v, rs.done))
+            # after an error the following items must be the reference's (C08): a wrong done flag loses / adds the
+            # end-of-input item that follows
+            mm({'eof', 'recover'} if info.get('error') else {'eof'}, 'done flag is %s, reference: %s' % (done_v.v, rs.done))
         lm = inner.f[F['last_match']]
         if not (isinstance(lm, E) and lm.v == 'None'):
             if not rs.done:
